@@ -70,6 +70,8 @@ def run(ctx, chk):
     chk.rule("L4", "no bypass: I/O methods of the guarded state are called only with a guard-derived receiver or from the guarded type itself; the socket is cloned only for the shutdown handle")
     run_on(fb, chk)
     _siblings(fb, chk)
+    from . import xlist
+    xlist.apply("C10", fb, chk)
     n = lambda r: len([i for i in chk.instances if i[0] == r])
     chk.floor("L1", n("L1"), 50)
     chk.floor("L2", n("L2"), 80)
